@@ -242,12 +242,12 @@ def check_env_unchanged(M, tag, before, env, n):
 
 
 @scenario
-def sc_solver(M, n, solver, chosen, computer="superadditive_cached", gap="exploitability"):
+def sc_solver(M, n, solver, chosen, computer="superadditive_cached", gap="exploitability", budget=None):
     """A built-in solver at the environment state `chosen` (explorable ids already revealed), hidden game symbolic:
     returns a currently valid action chosen by its rule (ties to the lowest index) and leaves the environment as found."""
     solvers = M.mod("solvers")
     init_ids = minimal(n)
-    env, gen = make_env(M, n, computer, gap)
+    env, gen = make_env(M, n, computer, gap, budget)
     v = gen.calls[-1]
     put_env_state(M, env, n, v, init_ids, chosen=set(chosen))
     expl = [c.id for c in env.explorable_coalitions]
@@ -443,14 +443,14 @@ def sc_best_states(M, n, max_steps, repetitions, gap="exploitability"):
 # size-aggregated environment (C16)
 
 @scenario
-def sc_linear_env(M, n, size, computer="superadditive_cached", gap="exploitability", budget=None):
+def sc_linear_env(M, n, size, computer="superadditive_cached", gap="exploitability", budget=None, cls="auto"):
     """ICG_Gym_Linear over the real ICG_Gym in an arbitrary invariant state: mask[k] <=> some explorable coalition of size k
     is unknown; observation = per-size sum of the inner observation, length n; step(size) for an allowed size reveals
     exactly one previously unknown coalition of that size (every tie-break explored), reports it and returns the inner
     reward / done."""
     lin_m = M.mod("icg_gym_linear")
     init_ids = minimal(n)
-    env, gen = make_env(M, n, computer, gap, budget)
+    env, gen = make_env(M, n, computer, gap, budget, cls=cls)     # cls=None: hidden games of ANY class
     v = gen.calls[-1]
     k = put_env_state(M, env, n, v, init_ids)
     expl = [c.id for c in env.explorable_coalitions]
@@ -595,3 +595,41 @@ def sc_evaluate(M, n, limit, repetitions, computer="superadditive_cached", gap="
     for j, (env, gen) in enumerate(envs):
         expl = [c.id for c in env.explorable_coalitions]
         check_trajectory(M, n, gap, None, limit, E_[:, j], A_[:, j], games[id(env)], expl, f"col{j}.")
+
+
+@scenario
+def sc_env_history(M, n, computer, gap, ops, budget=None):
+    """A whole history of step / unstep calls from reset (hidden game symbolic): after EVERY call the environment's view is
+    the one determined by the current knowledge alone (known set, values, freshly computed bounds, mask, observation,
+    reward, done, steps_taken) - whatever happened before.  ops: list of ['s', j] (step) / ['u', j] (unstep)."""
+    init_ids = minimal(n)
+    env, gen = make_env(M, n, computer, gap, budget)
+    v = gen.calls[-1]
+    expl = [c.id for c in env.explorable_coalitions]
+    chosen = []
+    for t, (kind, j) in enumerate(ops):
+        if kind == "s":
+            env.step(j)
+            chosen.append(expl[j])
+        else:
+            env.unstep(j)
+            chosen.remove(expl[j])
+        k = {c: (c in init_ids or c in chosen) for c in range(1 << n)}
+        check_observers(M, env, n, gap, v, k, init_ids, expl, budget, tag=f"after[{t}:{kind}{j}].", LU=sa_LU(M, n, k, v, computer))
+
+
+def all_histories(m, length):
+    """Every valid sequence of step/unstep operations of the given length over m explorable coalitions."""
+    out = []
+
+    def rec(seq, chosen):
+        if len(seq) == length:
+            out.append(list(seq))
+            return
+        for j in range(m):
+            if j not in chosen:
+                rec(seq + [["s", j]], chosen | {j})
+            else:
+                rec(seq + [["u", j]], chosen - {j})
+    rec([], frozenset())
+    return out
